@@ -1,5 +1,6 @@
 """C08 - streaming equals reference batch semantics with median aggregation."""
 FUNCTIONS = ['estimate_importances_minibatches']
+FRAME_ONLY = ['get_grouped_df']       # the median table is an assumed function symbol of its argument: its frame is a syntactic obligation
 LEVEL = 'proof'
 EXPLANATION = ('loop contract of estimate_importances_minibatches over the abstract sequence of data lines with abstract callees '
                '(parse = the dispatcher\'s function symbol, Rank = batch_triplets(rows, batch number), median table, checkpoint file as a '
